@@ -646,4 +646,97 @@ theorem addRrOp_scratch (sec : RrSection) (hint : Hint) (owner : WName) (ty cls 
             · simp [M.fail]
             · rw [setCount_apply]; simp
 
+/-! ### `add_*_rrset` -/
+
+theorem cgw_addRrset {track : Prop} {s0 : State} (owner : WName) (ty cls ttl : Nat) (hwf : owner.WF) :
+    ∀ (rds : List (List UInt8)) (hint : Hint) (n : Nat) (names : List WName),
+      CgW (fun s => ∃ loc o on, RecSt track s0 s names loc o on ∧ HintOK s hint owner)
+        (addRrset hint owner ty cls ttl rds n) := by
+  intro rds
+  induction rds with
+  | nil =>
+    intro hint n names
+    unfold addRrset
+    exact cgw_of_cg (cg_pure none _ _) (fun s => Nat.le_refl _)
+  | cons rd rds ih =>
+    intro hint n names
+    unfold addRrset
+    refine cgw_bind (Q := fun _ s => ∃ loc o on, RecSt track s0 s (names ++ rdataNames cls ty rd) loc o on ∧
+        HintOK s .mostRecentOwner owner) (cgw_addRr hint owner ty cls ttl rd hwf)
+      (fun s x s1 h => by have := frame_addRr hint owner ty cls ttl rd s; rw [h] at this; exact this.cur) ?_
+      (fun _ => ih .mostRecentOwner (n + 1) _)
+    intro s x s1 hs h1
+    obtain ⟨p, hrec⟩ := ((sp_addRr (track := track) (s0 := s0) (names := names) hint owner ty cls ttl rd hwf) s hs).2 x s1 h1
+    exact ⟨_, p, _, hrec, recSt_ownerHint hrec⟩
+
+theorem addRrsetOp_scratch (sec : RrSection) (hint : Hint) (owner : WName) (ty cls ttl : Nat)
+    (rds : List (List UInt8)) (s : State) (o : Bytes) (hw : WInv s) (hl : PtrLogOK s) (hwf : owner.WF)
+    (hh : HintOK s hint owner) (hr : Rl none s o) :
+    ∃ o', addRrsetOp sec hint owner ty cls ttl rds (wo s o) =
+        ((addRrsetOp sec hint owner ty cls ttl rds s).1, wo (addRrsetOp sec hint owner ty cls ttl rds s).2 o') ∧
+      Rl none (addRrsetOp sec hint owner ty cls ttl rds s).2 o' := by
+  unfold addRrsetOp
+  have hafter : ∀ s1, changeSection sec s = (.ok (), s1) →
+      ∃ loc po on, RecSt (s.hv = some []) s s1 [] loc po on ∧ HintOK s1 hint owner := by
+    intro s1 h1
+    obtain ⟨c1, c2, c3, c4, c5, c6, c7⟩ := changeSection_spec sec s
+    have hfr1 := frame_changeSection sec s
+    have hgp := changeSection_gPtrs sec s
+    rw [h1] at hfr1 c2 c3 c4 c5 c6 c7 hgp
+    simp only at hfr1 c2 c3 c4 c5 c6 c7 hgp
+    have w1 : WInv s1 := winv_ext hw hfr1 c7 c3 c4 c5
+    exact ⟨[], _, none, recSt_step (recSt_init hw hl) hfr1 w1 c2 c5 c4 c3 hgp, hintOK_ext hh hfr1 c3 c4 c5 c6⟩
+  apply rollback_scratch
+  · have hcs : CgW (fun s' => s' = s) (changeSection sec) :=
+      cgw_of_cg (cg_changeSection _ sec) (fun s' => (frame_changeSection sec s').cur)
+    have hcount : ∀ n : Nat, CgW (fun _ => True) (do
+        let c ← M.gets (getCount sec)
+        if n > 65535 then M.fail .CountOverflow
+        else if c + n > 65535 then M.fail .CountOverflow
+        else setCount sec (c + n)) := by
+      intro n
+      refine cgw_of_cg (cg_bind' (cg_gets none _ _ (fun s o => by cases sec <;> rfl)) (fun c => ?_)) (fun s' => ?_)
+      · exact cg_ite (cg_fail none _ _) (cg_ite (cg_fail none _ _) (cg_setCount _ sec _))
+      · simp only [M.bind_apply, M.gets_apply]
+        split
+        · exact Nat.le_refl _
+        · split
+          · exact Nat.le_refl _
+          · cases sec <;> exact Nat.le_refl _
+    have := cgw_bind (Q := fun _ s1 => ∃ loc po on, RecSt (s.hv = some []) s s1 [] loc po on ∧ HintOK s1 hint owner)
+      hcs (fun s' x s1 h => by have := frame_changeSection sec s'; rw [h] at this; exact this.cur)
+      (fun s' x s1 hs h => by subst hs; cases x; exact hafter s1 h)
+      (fun _ => cgw_bind (Q := fun _ _ => True)
+        (cgw_addRrset (track := s.hv = some []) (s0 := s) owner ty cls (ttlFrom ttl) hwf rds hint 0 [])
+        (fun s' x s1 h => by
+          have := frame_addRrset hint owner ty cls (ttlFrom ttl) rds 0 s'; rw [h] at this; exact this.cur)
+        (fun _ _ _ _ _ => trivial) hcount)
+    exact this s o rfl hr
+  · simp only [M.bind_apply]
+    have c1 := (changeSection_spec sec s).1
+    cases hcs : changeSection sec s with
+    | mk r1 s1 =>
+      rw [hcs] at c1
+      cases r1 with
+      | panic => exact absurd rfl c1
+      | err e => simp
+      | ok u =>
+        simp only []
+        obtain ⟨loc, po, on, hrec, hh1⟩ := hafter s1 (by cases u; exact hcs)
+        have hnp := ((sp_addRrset (track := s.hv = some []) (s0 := s) owner ty cls (ttlFrom ttl) hwf rds hint 0 []
+          on) s1 ⟨loc, po, hrec, hh1⟩).1
+        cases ha : addRrset hint owner ty cls (ttlFrom ttl) rds 0 s1 with
+        | mk r2 s2 =>
+          rw [ha] at hnp
+          cases r2 with
+          | panic => exact absurd rfl hnp
+          | err e => simp
+          | ok u2 =>
+            simp only [M.gets_apply]
+            split
+            · simp [M.fail]
+            · split
+              · simp [M.fail]
+              · rw [setCount_apply]; simp
+
 end QV.Writer
